@@ -262,6 +262,18 @@ func (s *scen) sign(class string, k keyPair, tx *caseTx, idx int, code []byte, a
 		if sb[0] >= 0x80 || new(big.Int).SetBytes(sb).Sign() == 0 {
 			sb[0] = 0x01
 		}
+		if s.forgedN == 0 && s.rng.Intn(5) == 0 {
+			// perfectly formed DER whose R or S is outside 1..N-1 (0, N, N+1, 2^256-1)
+			nn := bec.S256().N
+			vals := []*big.Int{big.NewInt(0), nn, new(big.Int).Add(nn, big.NewInt(1)), new(big.Int).Sub(new(big.Int).Lsh(big.NewInt(1), 256), big.NewInt(1))}
+			rv, sv2 := new(big.Int).SetBytes(randBytes(s.rng, 31)), new(big.Int).SetBytes(sb)
+			if s.rng.Intn(2) == 0 {
+				rv = vals[s.rng.Intn(len(vals))]
+			} else {
+				sv2 = vals[s.rng.Intn(len(vals))]
+			}
+			return append(derEncode(rv, sv2), ht)
+		}
 		rb := randBytes(s.rng, 32)
 		rb[0] = 0x11
 		return append(derEncode(new(big.Int).SetBytes(rb), new(big.Int).SetBytes(sb)), ht)
@@ -437,6 +449,15 @@ func sigsCmd(args []string) error {
 			code = []byte{op}
 		default:
 			lock = append(pushBytes(kb), op)
+			if rng.Intn(6) == 0 {
+				// the key pushed in a non-minimal form (PUSHDATA1 / PUSHDATA2): the script code signatures
+				// commit to is the script as written, not a re-encoding of it
+				if rng.Intn(2) == 0 {
+					lock = append(append([]byte{0x4c, byte(len(kb))}, kb...), op)
+				} else {
+					lock = append(append([]byte{0x4d, byte(len(kb)), 0x00}, kb...), op)
+				}
+			}
 			if !verify && rng.Intn(3) == 0 {
 				// the result is consumed: "false" and "error" are different verdicts here
 				lock = append(lock, 0x91)
